@@ -28,7 +28,7 @@ BOUNDARY_BYTES = [0x0f, 0x10, 0x11, 0x1f, 0x20, 0x3f, 0x40, 0x7f, 0x80, 0x81, 0x
 for _i, _b in enumerate(BOUNDARY_BYTES):
     TAILS[10 + _i] = bytes([_b]) + bytes(13)            # boundary value in the first operand byte
     TAILS[30 + _i] = bytes([0, _b]) + bytes(12)         # ... in the second operand byte (16-bit operands, high/low byte)
-BOUNDARY_TAIL_IDS = []  # enabled once the catalogue for the boundary fillings is adopted: sorted(k for k in TAILS if k >= 10)
+BOUNDARY_TAIL_IDS = sorted(k for k in TAILS if k >= 10)
 A = 0x1000
 POS2_EXTRA = {"dspic", "pic24"}
 
